@@ -22,6 +22,12 @@ theorem withReg_pc_obs (w : World K) (f : (List (K × K × K) → K × K) → Re
   exact ⟨ite_proj (fun x : World K => x.pc) _ _ _ _ rfl rfl, ite_proj (fun x : World K => x.obs) _ _ _ _ rfl rfl,
     ite_proj (fun x : World K => x.bot) _ _ _ _ rfl rfl⟩
 
+theorem withReg_crashed (w : World K) (f : (List (K × K × K) → K × K) → Reg K) :
+    (w.withReg f).crashed = w.crashed := by
+  unfold World.withReg
+  simp only []
+  exact ite_proj (fun x : World K => x.crashed) _ _ _ _ rfl rfl
+
 /-- Interpreting an output records it and touches nothing of the main thread's position. -/
 theorem applyOut_pc_obs (wt : K → K) (ct : K) (w : World K) (o : Out) :
     (World.applyOut wt ct w o).pc = w.pc ∧
@@ -60,6 +66,46 @@ theorem applyOut_pc_obs (wt : K → K) (ct : K) (w : World K) (o : Out) :
           · split <;> exact ⟨rfl, rfl, rfl⟩
           all_goals exact ⟨rfl, rfl, rfl⟩
         · exact ⟨rfl, rfl, rfl⟩
+
+/-- … nor whether the main thread has died. -/
+theorem applyOut_crashed (wt : K → K) (ct : K) (w : World K) (o : Out) :
+    (World.applyOut wt ct w o).crashed = w.crashed := by
+  unfold World.applyOut
+  cases o <;> simp only []
+  all_goals first
+    | (split <;> rfl)
+    | skip
+  · split
+    · rfl
+    · split
+      · exact withReg_crashed _ _
+      · exact withReg_crashed _ _
+  · split
+    · rfl
+    · exact withReg_crashed _ _
+  · split
+    · rfl
+    · split
+      · split
+        · split <;> rfl
+        all_goals rfl
+      · split
+        · split
+          · split <;> rfl
+          all_goals rfl
+        · rfl
+
+theorem foldl_applyOut_bot_crashed (wt : K → K) (ct : K) (outs : List Out) :
+    ∀ (w : World K), (outs.foldl (World.applyOut wt ct) w).bot = w.bot ∧
+      (outs.foldl (World.applyOut wt ct) w).crashed = w.crashed := by
+  induction outs with
+  | nil => intro w; exact ⟨rfl, rfl⟩
+  | cons o rest ih =>
+    intro w
+    obtain ⟨_, _, hb⟩ := applyOut_pc_obs wt ct w o
+    obtain ⟨h1, h2⟩ := ih (World.applyOut wt ct w o)
+    simp only [List.foldl_cons]
+    exact ⟨h1.trans hb, h2.trans (applyOut_crashed wt ct w o)⟩
 
 theorem foldl_applyOut_no_ring (wt : K → K) (ct : K) (outs : List Out) :
     ∀ (w : World K), (∀ o ∈ outs, o.isRing = false) →
